@@ -248,7 +248,7 @@ def engine_history(rng, eid, nsteps):
         elif r < 0.47:
             ar = rng.choice([1, 1, 2, 0])
             nm = rng.choice(['q', 't']) if ar == 1 else ('p' if ar == 2 else 'z0')
-            hist.append(('register', nm, ar, [tuple(A('e%d_py%d_%d' % (eid, sid, j)) for j in range(ar))], rng.choice(['inferred', 'inferred', 'explicit'])))
+            hist.append(('register', nm, ar, [tuple(A('e%d_py%d_%d' % (eid, sid, j)) for j in range(ar))], rng.choice(['inferred', 'inferred', 'explicit', 'variadic'])))
         elif r < 0.5 and not open_q:
             hist.append(('clear',))
         elif r < 0.55:
